@@ -203,13 +203,30 @@ def run(chk):
     if "visit_str" in son:
         b = son["visit_str"]
         chk.touched(b)
-        ok = bool(names.calls_to(b, "FromStr::from_str")) and any("f64" in (t.get("callee_full") or "") for bb, t in b.calls() if names.call_is(t, "FromStr::from_str"))
+        # the text is parsed as the target type and, failing that, as f64 (from_str or str::parse, whichever way round the
+        # control flow is written)
+        parses = [t for bb, t in b.calls() if names.call_is(t, "FromStr::from_str", "str::parse")]
+        as_float = [t for t in parses if "f64" in (t.get("callee_full") or "") or any(g.strip() == "f64" for g in (t.get("gargs") or []))]
+        as_target = [t for t in parses if t not in as_float]
+        ok = bool(as_float) and bool(as_target)
         chk.ob("R1 lenient members", "R1|helper|StringOrNum|numeric-strings-and-floats", ok, where(b), "visit_str parses the integer type, then f64: %s" % ok)
     if "visit_f64" in son:
         b = son["visit_f64"]
         chk.touched(b)
-        ok = bool(names.calls_to(b, "Visitor::visit_i64")) or any("visit_i64" in (core.callee_of(t)) for bb, t in b.calls())
-        chk.ob("R1 lenient members", "R1|helper|StringOrNum|integral-floats", ok, where(b), "visit_f64 converts to an integer and reuses visit_i64: %s" % ok)
+        # the float is truncated to a *signed* 64-bit integer (negative identifiers survive) and that integer takes the
+        # integer path: visit_i64, or the same checked conversion T::try_from(i64)
+        Tb = flow.Terms(p, b)
+        Nb = normal.Normalizer(p, summary.Summaries(p))
+        sinks = [(bb, t) for bb, t in b.calls() if names.call_is(t, "Visitor::visit_i64") or "visit_i64" in core.callee_of(t)
+                 or (names.call_is(t, "TryFrom::try_from", "TryInto::try_into") and any(g.strip() == "i64" for g in (t.get("gargs") or [])))]
+        ok = bool(sinks)
+        for bb, t in sinks:
+            v = Nb.norm(Tb.operand(t["args"][-1], bb, "t"))
+            casts = [x for x in sub(v) if isinstance(x, tuple) and len(x) == 3 and x[0] == "cast"]
+            ok = ok and any(x[1] == "i64" and x[2] == ("param", 2) for x in casts) and not any(x[2] == ("param", 2) and x[1] != "i64" for x in casts)
+        unsigned = [s for bb, s in b.stmts() if s["k"] == "assign" and s["rv"]["k"] == "cast" and s["rv"].get("ty") in ("u64", "u32", "usize", "u16", "u8") and "Float" in (s["rv"].get("ck") or "")]
+        ok = ok and not unsigned
+        chk.ob("R1 lenient members", "R1|helper|StringOrNum|integral-floats", ok, where(b), "visit_f64 truncates to i64 and takes the integer path (visit_i64 / T::try_from(i64)): %s" % ok)
     ms = fn("maybe_stringified")
     if ms is not None:
         chk.touched(ms)
